@@ -30,6 +30,7 @@ func checkC09(p *Prog, r *Report) {
 	ruleC09SortOrder(p, a, r)
 	ruleC09SortTotal(p, a, r)
 	ruleC09StateOnce(p, a, r)
+	ruleC09MapReversed(p, a, r)
 }
 
 func ruleC09State(p *Prog, a *Anchors, r *Report) {
